@@ -585,7 +585,10 @@ func parseType(ctx context.Context, t *parser.Type, tree *parser.Thrift, cache c
 		return ty, err
 	default:
 		// check the cache
-		if ty, ok := cache[t.Name]; ok && ty.parseTarget == parseTarget {
+		// NOTICE: the key carries the file the name is resolved in, because one cache serves every function
+		// of a service, including functions inherited from a service of another file
+		cacheKey := tree.Filename + "#" + t.Name
+		if ty, ok := cache[cacheKey]; ok && ty.parseTarget == parseTarget {
 			return ty.desc, nil
 		}
 
@@ -668,7 +671,7 @@ func parseType(ctx context.Context, t *parser.Type, tree *parser.Thrift, cache c
 			}
 		}
 		if st := ty.Struct(); st != nil {
-			cache[t.Name] = &compilingInstance{parseTarget: parseTarget, desc: ty}
+			cache[cacheKey] = &compilingInstance{parseTarget: parseTarget, desc: ty}
 		}
 
 		// parse fields
@@ -685,7 +688,7 @@ func parseType(ctx context.Context, t *parser.Type, tree *parser.Thrift, cache c
 			}
 			// cannot cache the request base
 			if isRequestBase {
-				delete(cache, t.Name)
+				delete(cache, cacheKey)
 			}
 			if isRequestBase || isResponseBase {
 				ty.struc.baseID = FieldID(field.ID)
